@@ -81,6 +81,8 @@ class Lower:
         k = e[0]
         if k == 'tmpl' and e[1] == 'has_facet' and len(e[2]) == 2 and norm(e[2][0]) == 'Policy' and norm(e[2][1]) in FACETS:
             return '(VHas %s)' % FACETS[norm(e[2][1])]
+        if k == 'id' and e[1] in getattr(self, 'indirect_aliases', ()):
+            return '(VHas FIndirectVptr)'        # static constexpr bool is_indirect = has_facet<indirect_vptr>;  (checked in main)
         if k == 'bin' and e[1] == '&&':
             return '(VAnd %s %s)' % (self.cond(e[2]), self.cond(e[3]))
         if k == 'un' and e[1] == '!':
@@ -185,7 +187,7 @@ class Lower:
                     return 'VSkip'          # result.vptr = vptr
                 if l == ('id', 'index') and r == ('call', ('id', 'Policy::hash_type_id'), [('id', 'index')]) and self.ids.get('index') == 'IIndex':
                     return 'VIndexHash'
-                if l == ('id', 'vptr'):
+                if l == ('id', 'vptr') or (self.result_var and l == ('member', ('id', self.result_var), 'vptr', False)):
                     sk = self.static_vptr_kind(r)
                     if sk:
                         return sk
@@ -253,6 +255,7 @@ def main():
             ast = mc.parse_function_body(body, TEMPLATES + tuple(helpers))
             lw = Lower('virtual_ptr::' + fname, param)
             lw.vptr_helpers = helpers
+            lw.indirect_aliases = {n for n in indirect_names if '<' not in n}
             text = lw.s(ast)
             if lw.traits_mode is None:
                 raise mc.Unsupported('virtual_ptr::%s: no virtual_traits alias found' % fname)
